@@ -148,6 +148,10 @@ Definition check_conflicts (cs : list (bytes * bytes)) (seen : list bytes) : opt
   | None => None
   end.
 
+(* --version / -V / --help / -h at the top level *)
+Definition is_display (t : bytes) : bool :=
+  beq t [45; 45; 118; 101; 114; 115; 105; 111; 110] || beq t [45; 86] || beq t [45; 45; 104; 101; 108; 112] || beq t [45; 104].
+
 (* argv without the program name; global arguments may appear before or after the subcommand *)
 Fixpoint skip_leading_globals (fuel : nat) (globals : list aspec) (argv : list bytes) (seen : list bytes)
   : (list bytes * list bytes) + perr :=
@@ -156,7 +160,8 @@ Fixpoint skip_leading_globals (fuel : nat) (globals : list aspec) (argv : list b
   | S fuel' =>
       match argv with
       | t :: rest =>
-          if beq t [45; 45] then
+          if is_display t then inl ([], [45; 45; 100] :: seen)      (* answered by clap itself: accepted *)
+          else if beq t [45; 45] then
             (* `--` before the subcommand: the top level has no positional, whatever follows is unexpected *)
             match rest with
             | x :: _ => inr (ETooManyPositionals x)
@@ -186,7 +191,7 @@ Definition accepts (globals : list aspec) (cmds : list cspec) (argv : list bytes
   | inr e => PErr e
   | inl (argv', gseen) =>
     match argv' with
-    | [] => PErr EUnknownSubcommand
+    | [] => if existsb (beq [45; 45; 100]) gseen then POk gseen else PErr EUnknownSubcommand
     | sub :: toks =>
       match find (fun c => beq (c_name c) sub) cmds with
       | None => PErr EUnknownSubcommand
@@ -199,7 +204,8 @@ Definition accepts (globals : list aspec) (cmds : list cspec) (argv : list bytes
               let seen := seen0 ++ gseen in
               match check_required args seen with
               | Some e => PErr e
-              | None => match check_conflicts (c_conflicts c) seen with
+              | None => match (match check_conflicts (c_conflicts c) seen0 with Some e => Some e
+                                      | None => check_conflicts (c_conflicts c) gseen end) with
                         | Some e => PErr e
                         | None => POk seen
                         end
